@@ -210,6 +210,17 @@ def build_cases(tier):
             for on in ([opn] if tier == "quick" else list(OPSETS)):
                 cases.append(dict(label="partition", queries=OPSETS[on], opset=on, source={"kind": "dir", "files": files}, tags={"source:dir", f"blocks:{len(blocks)}"},
                                   partition=[[i for i in b] for b in blocks], rotation=rot))
+    # file endings: no trailing newline, and a trailing comment without newline (the concatenation must still separate files)
+    for pi, blocks in enumerate(parts):
+        if len(blocks) < 2 or (tier == "quick" and pi % 3):
+            continue
+        for ending, tag in (("", "no_trailing_newline"), ("\n# end of this part", "comment_tail_without_newline")):
+            files = {}
+            for bi, block in enumerate(blocks):
+                folder, ext = PLACES[bi % 3]
+                files[f"{folder}part{bi}{ext}"] = "\n".join(DEFS[i] for i in block) + ending
+            cases.append(dict(label="partition_" + tag, queries=OPSETS["ops1"], opset="ops1", source={"kind": "dir", "files": files}, tags={"source:dir", f"blocks:{len(blocks)}", tag},
+                              partition=[[i for i in b] for b in blocks], rotation=tag))
     # extra directory shapes: a non-graphql file and an empty sub-directory must be ignored
     files = {"a.graphql": "\n".join(DEFS[:3]) + "\n", "b.gql": "\n".join(DEFS[3:]) + "\n", "README.md": "not graphql {", "sub/notes.txt": "type Broken {"}
     cases.append(dict(label="dir_with_foreign_files", queries=OPSETS["ops1"], opset="ops1", source={"kind": "dir", "files": files}, tags={"source:dir", "foreign_files"}))
